@@ -15,6 +15,7 @@ def check(ctx):
     r063_events(ctx)
     r064_null(ctx)
     r065_losses(ctx)
+    r066_loss_moment_wiring(ctx)
 
 
 # ----------------------------------------------------------------------------- R06.1
@@ -449,3 +450,49 @@ def r065_losses(ctx):
     roles["e"] = A.ev.eval_src("y - h", roles, module=M_ER)
     specs = [A.ev.eval_src(v, roles, module=M_ER) for v in variants]
     A.formula("R06.5", r.func, None, r.ret, specs, "cost-weighted error", construct="ErrorRate.gamma formula")
+
+
+def r066_loss_moment_wiring(ctx):
+    ctx.rule("R06.6", "ConditionalLossMoment: bound() = upper_bound on the group index (raises when unset); with no_groups every "
+                      "row belongs to the single group 'all'; the group index is that of P(g); BoundedGroupLoss uses groups, "
+                      "MeanLoss none; ErrorRate's index is ['all'] and its gamma is indexed by it")
+    A = Analysis(ctx, no_inline=[M_IV + ":_validate_and_reformat_input", M_MOMENT + ":Moment.load_data"])
+    cls = M_BGL + ":ConditionalLossMoment"
+    rb = A.run(cls + ".bound", cls_ctx=cls)
+    want = A.entry(rb, "pd.Series(self.upper_bound, index=self.index)", {"pd": glob("pandas")})
+    raises = [e for e in rb.events if e.kind == "raise" and e.pc and A.C.canon(e.pc[-1]) is A.C.canon(A.entry(rb, "self.upper_bound is None"))]
+    rets = [e for e in rb.events if e.kind == "return" and e.func == rb.func]
+    ok = bool(raises) and len(rets) == 1 and A.eq(rets[0].data["value"], want)
+    ctx.ob("R06.6", rb.func, None, ok, "bound() = Series(upper_bound) on the group index; raises without an upper bound",
+           construct="ConditionalLossMoment.bound")
+    rl = A.run(cls + ".load_data", cls_ctx=cls)
+    sup = calls_to(rl, M_MOMENT + ":Moment.load_data")
+    val = calls_to(rl, M_IV + ":_validate_and_reformat_input")
+    ok = len(sup) == 1 and len(val) == 1
+    if ok:
+        res = val[0].data["result"]
+        y_tr, sf_tr = mk("sub", res, const(1)), mk("sub", res, const(2))
+        sf = kw(sup[0], "sensitive_features")
+        allc = A.ev.eval_src("_ALL", {}, module=M_BGL)
+        c = A.C.canon(sf)
+        want_none = A.C.canon(A.spec("y.apply(lambda v: A)", {"y": y_tr, "A": allc}))
+        ok = c.op == "ite" and c.args[0] is A.C.canon(A.entry(rl, "self.no_groups")) and c.args[1] is want_none and c.args[2] is A.C.canon(sf_tr) \
+            and arg(sup[0], 1) is y_tr and arg(sup[0], 0) is rl.params["X"] and kw(val[0], "enforce_binary_labels") is const(False)
+    ctx.ob("R06.6", rl.func, sup[0].node if sup else None, ok, "groups are the validated sensitive feature, or the constant "
+           "'all' when no_groups is set; labels are not forced to be binary", construct="ConditionalLossMoment groups")
+    st = stores_attr(rl, "_index")
+    ok = bool(st) and all(A.eq(e.data["value"], A.at(e, "self.prob_attr.index")) for e in st)
+    ctx.ob("R06.6", rl.func, st[0].node if st else None, ok, "the constraint index is the index of the group frequencies",
+           construct="ConditionalLossMoment index")
+    for name, flag in (("BoundedGroupLoss", False), ("MeanLoss", True)):
+        c2 = f"{M_BGL}:{name}"
+        ri = A.run(c2 + ".__init__", cls_ctx=c2)
+        v = ri.final.heap.get((ri.self_term, "no_groups")) if ri.final else None
+        ok = v is const(flag) and ri.final.heap.get((ri.self_term, "reduction_loss")) is ri.params["loss"]
+        ctx.ob("R06.6", ri.func, None, ok, f"{name} sets no_groups={flag} and keeps the given loss", construct=f"{name} constructor")
+    ce = M_ER + ":ErrorRate"
+    re_ = A.run(ce + ".load_data", cls_ctx=ce)
+    st = stores_attr(re_, "_index")
+    allc = A.ev.eval_src("_ALL", {}, module=M_ER)
+    ok = bool(st) and all(e.data["value"] is mk("list", (allc,)) for e in st)
+    ctx.ob("R06.6", re_.func, st[0].node if st else None, ok, "ErrorRate's constraint index is ['all']", construct="ErrorRate index")
